@@ -35,6 +35,26 @@ func TestSweep(t *testing.T) {
 		Oracle.One(t, env, rec, "sweep", &Case{S: e.S.Name, D: e.D.Name, Xs: vals(Bounds(e))})
 		Oracle.One(t, env, rec, "sweep", &Case{S: e.S.Name, D: e.D.Name, Xs: vals(Bounds(e)), Pad: 20000, Fix: 1})
 		Oracle.One(t, env, rec, "sweep", &Case{S: e.S.Name, D: e.D.Name, Xs: vals(Bounds(e)), Fix: 2})
+		if e.S.Bits == 64 {
+			// float32-exact inputs at every quantisation step of 8-bit (and a stride of 16-bit) destinations, each with its float64 neighbours
+			d := e.D.Bits
+			var xs []float64
+			step := int64(1)
+			if d > 8 {
+				step = 97
+			}
+			if d <= 16 {
+				for k := numkit.Lo(d); k <= numkit.Hi(d); k += step {
+					fs := float64(numkit.Hi(d))
+					if k < 0 {
+						fs = -float64(numkit.Lo(d))
+					}
+					x := float64(float32(float64(k) / fs))
+					xs = append(xs, x, math.Nextafter(x, 2), math.Nextafter(x, -2))
+				}
+				Oracle.One(t, env, rec, "sweep", &Case{S: e.S.Name, D: e.D.Name, Xs: vals(xs)})
+			}
+		}
 		for _, x := range []float64{0.5, -0.5, 1, -1, 2, -2, 0} { // single-sample buffers
 			Oracle.One(t, env, rec, "sweep", &Case{S: e.S.Name, D: e.D.Name, Xs: vals([]float64{x})})
 		}
